@@ -57,6 +57,31 @@ def run(ctx, impl_only=False):
     pairs += FAM.rich_pairs(ctx, n // 4)
     pairs += C01.flat_dict_pairs(ctx, n // 2)      # the domain of C08_flat_dict_inverse
     pairs += C01.nested_dict_pairs(ctx, n // 3)
+    # sequences that gain or lose several trailing items (each direction sorts the same report in its own order), at the root and nested
+    for _ in range(max(10, n // 6)):
+        base = [ctx.rng.choice([0, 1, 2, 'a', 'b', 1.5, None]) for _ in range(ctx.rng.randint(0, 4))]
+        tail = [ctx.rng.choice([7, 8, 9, 'x', 'y', 2.5]) for _ in range(ctx.rng.randint(2, 4))]
+        mk_ = ctx.rng.choice([list, tuple]) if base or True else list
+        a, b = mk_(base), mk_(base + tail)
+        if ctx.rng.random() < 0.5:
+            a, b = b, a
+        w = ctx.rng.choice([lambda x: x, lambda x: {'l': x, 'z': 1}, lambda x: [0, x]]) if mk_ is list else (lambda x: x)
+        pairs.append((w(a), w(b)))
+    # lists of distinct scalars with a shift (an item deleted or inserted) and a replaced item elsewhere: the difflib pass wins, opcodes are recorded,
+    # and the replaced item is a values_changed entry inside a container that has opcodes
+    for _ in range(max(10, n // 6)):
+        k = ctx.rng.randint(4, 8)
+        base = ctx.rng.sample(['a', 'b', 'c', 'd', 'e', 'f', 'g', 'h', 1, 2, 3, 4, 5], k)
+        new = list(base)
+        i_rep = ctx.rng.randrange(k)
+        new[i_rep] = ctx.rng.choice(['X', 'Y', 99, 2.5])
+        if ctx.rng.random() < 0.5:
+            j = ctx.rng.choice([x for x in range(k) if abs(x - i_rep) > 1] or [0])
+            del new[j]
+        else:
+            new.insert(ctx.rng.choice([0, k]), 'NEW')
+        w = ctx.rng.choice([lambda x: x, lambda x: {'l': x, 'z': 1}, lambda x: [0, x]])
+        pairs.append((w(base), w(new)) if ctx.rng.random() < 0.7 else (w(new), w(base)))
     lines, metas = [], []
     grid = [(z, thr) for z in (False, True) for thr in (0, 0.33, 0.9)]
     for i, (t1, t2) in enumerate(pairs):
@@ -90,10 +115,11 @@ def run(ctx, impl_only=False):
                 else:
                     # back and forth
                     d = mk(raise_errors=True)
-                    x = copy.deepcopy(t1); okc = True
+                    start = ctx.rng.randrange(2)              # the same Delta object, used first forwards or first backwards
+                    x = copy.deepcopy(t1 if start == 0 else t2); okc = True
                     seq = ''
                     try:
-                        for k in range(ctx.rng.randint(2, 6)):
+                        for k in range(start, start + ctx.rng.randint(2, 6)):
                             if k % 2 == 0:
                                 x = x + d; seq += '+'; want = t2
                             else:
@@ -117,6 +143,8 @@ def run(ctx, impl_only=False):
             # single-location corruptions
             ddiff = mk().diff
             cpaths = [p for c in ('values_changed', 'type_changes') for p in ddiff.get(c, {})]
+            # ... and every location DeepDiff itself reports as changed (whether or not the payload kept an entry for it)
+            cpaths += [p for c in ('values_changed', 'type_changes') for p in (dd.get(c, {}) if isinstance(dd.get(c, {}), dict) else []) if p not in cpaths]
             ctx.rng.shuffle(cpaths)
             model_bases = []
             for p in cpaths[: (4 if ctx.thorough() else 2)]:
